@@ -115,7 +115,7 @@ func (p *MultilineAction) Do(event *pipeline.Event) pipeline.ActionResult {
 	predictedLen := p.eventSize + predictionLookahead
 	shouldSplit := predictedLen > p.config.SplitEventSize
 	logFragmentLen := len(logFragment)
-	isEnd := logFragment[logFragmentLen-3:logFragmentLen-1] == newLine
+	isEnd := endsWithEscapedNewLine(logFragment)
 	if !isEnd && !shouldSplit {
 		sizeAfterAppend := len(p.eventBuf) + len(logFragment)
 		// check buffer size before append
@@ -228,4 +228,19 @@ func (p *MultilineAction) resetLogBuf() {
 	p.eventBuf = p.eventBuf[:1]
 	p.eventSize = 0
 	p.cutOffEvent = false
+}
+
+// endsWithEscapedNewLine reports whether s, which is an escaped JSON string with its quotes,
+// ends with a line feed: the final `n` must be preceded by an odd number of backslashes
+// (`\\n` is a backslash followed by the letter n).
+func endsWithEscapedNewLine(s string) bool {
+	i := len(s) - 2
+	if i < 2 || s[i] != 'n' {
+		return false
+	}
+	n := 0
+	for j := i - 1; j >= 1 && s[j] == '\\'; j-- {
+		n++
+	}
+	return n%2 == 1
 }
